@@ -48,7 +48,7 @@ def build_conf_table(p):
     )
 
 
-def gen_scores(table, seed, tie_mode=False, correct_shift=3.0, mode="plain"):
+def gen_scores(table, seed, tie_mode=False, correct_shift=3.0, mode="plain", top_decoys=0):
     """Score vector: continuous and distinct; in tie mode exact ties are planted
     inside spectra and inside peptides."""
     rng = random.Random(f"scores|{seed}")
@@ -61,6 +61,14 @@ def gen_scores(table, seed, tie_mode=False, correct_shift=3.0, mode="plain"):
         while s[i] in seen:
             s[i] = float(f"{s[i] + 1e-6 * rng.randint(1, 999):.6f}")
         seen.add(s[i])
+    if top_decoys:
+        from ..datagen import targets_of
+
+        tg = targets_of(table)
+        dec = [i for i in range(n) if not tg[i]]
+        top = max(s)
+        for k, i in enumerate(rng.sample(dec, min(len(dec), top_decoys))):
+            s[i] = float(f"{top + 1.5 + k:.6f}")  # decoys that outscore every target
     if mode == "zero_anchor" and n > 2:
         # what per-fold calibration produces: one PSM scores exactly 0.0, others lie on both sides
         order = sorted(range(n), key=lambda i: s[i])
